@@ -8,3 +8,8 @@ mkdir -p target evidence replays
 cargo build --release --offline --manifest-path harness/Cargo.toml --target-dir target/harness
 cargo build --release --offline --manifest-path /repo/Cargo.toml --target-dir target/engine
 target/harness/release/fverif selftest
+# AddressSanitizer build of the same harness (sanitizer pass of the in-process checks); optional: when the
+# nightly toolchain cannot build it the checks say so in their evidence and decide without it
+CARGO_PROFILE_RELEASE_DEBUG=line-tables-only CARGO_PROFILE_RELEASE_STRIP=none RUSTFLAGS="-Zsanitizer=address -Cforce-frame-pointers=yes -Cdebug-assertions=off" \
+  cargo +nightly build --release --offline --manifest-path harness/Cargo.toml --target x86_64-unknown-linux-gnu --target-dir target/asan \
+  || echo "setup: sanitizer build unavailable"
